@@ -299,6 +299,73 @@ fn history_case(cx: &mut Cx) {
     let _ = std::fs::remove_dir_all(&dir);
 }
 
+/// A store that has been running for longer than the expiry: what it learns now and saves must load back (the age of
+/// the store, or of the file, says nothing about the age of the addresses in it).
+fn long_running_store_case(cx: &mut Cx) {
+    let dir = scratch_dir("c18l");
+    let path = dir.join("cache.json");
+    let expiry = 2u64;
+    let cfg = BootstrapCacheConfig::empty().with_cache_path(&path).with_max_peers(20).with_addrs_per_peer(4).with_addr_expiry_duration(Duration::from_secs(expiry));
+    let mut store = match BootstrapCacheStore::new(cfg.clone()) {
+        Ok(s) => s,
+        Err(e) => {
+            cx.inconclusive(format!("store: {e:?}"));
+            return;
+        }
+    };
+    // what is on disk when the store first saves: nothing, a corrupt file, or an old cache whose entries have expired
+    let prior = cx.rng.gen_range(0..3);
+    let peers: Vec<PeerId> = (0..6).map(|_| peer(&mut cx.rng)).collect();
+    if prior == 2 {
+        let mut old = BootstrapCacheStore::new(cfg.clone()).expect("store");
+        for _ in 0..3 {
+            let (a, _) = random_addr(&mut cx.rng, &peers);
+            old.add_addr(a);
+        }
+        let _ = old.sync_and_flush_to_disk(false);
+    } else if prior == 1 {
+        let _ = std::fs::write(&path, b"{ not a cache file");
+    }
+    std::thread::sleep(Duration::from_millis(expiry * 1000 + 400));
+    let fresh_peers: Vec<PeerId> = (0..cx.rng.gen_range(1..=4)).map(|_| peer(&mut cx.rng)).collect();
+    let mut fresh: Vec<Multiaddr> = vec![];
+    for p in &fresh_peers {
+        let a: Multiaddr = format!("/ip4/10.{}.{}.{}/udp/{}/quic-v1/p2p/{p}", cx.rng.gen_range(0..255), cx.rng.gen_range(0..255), cx.rng.gen_range(1..255), cx.rng.gen_range(1024..65000)).parse().expect("addr");
+        store.add_addr(a.clone());
+        fresh.push(a);
+    }
+    let with_cleanup = cx.rng.gen_bool(0.5);
+    let t_save = std::time::Instant::now();
+    let saved = catch(|| store.sync_and_flush_to_disk(with_cleanup));
+    cx.eval();
+    cx.count("long-running-store-saves");
+    let prior_txt = ["nothing", "corrupt file", "old cache, all expired"][prior];
+    let w = json!({"expiry_s": expiry, "on_disk_before_the_save": prior_txt, "fresh_addresses": fresh.iter().map(|a| a.to_string()).collect::<Vec<_>>(), "cleanup_on_save": with_cleanup});
+    match saved {
+        Err(p) => cx.violation("panic", format!("sync_and_flush_to_disk panicked: {p} {}", crate::last_panic()), w.clone()),
+        Ok(Err(e)) => cx.violation("save-failed", format!("{e:?}"), w.clone()),
+        Ok(Ok(())) => match catch(|| BootstrapCacheStore::load_cache_data(&cfg)) {
+            Err(p) => cx.violation("panic", format!("load_cache_data panicked: {p} {}", crate::last_panic()), w.clone()),
+            Ok(Err(e)) => cx.violation("saved-file-does-not-load", format!("{e:?}"), w.clone()),
+            Ok(Ok(data)) => {
+                // judged only if the whole save + load stayed well inside the expiry of the fresh addresses
+                if t_save.elapsed() < Duration::from_millis(900) {
+                    let loaded: BTreeSet<String> = data.peers.values().flat_map(|b| b.0.iter().map(|x| x.addr.to_string())).collect();
+                    for a in &fresh {
+                        if !loaded.contains(&a.to_string()) {
+                            cx.violation("fresh-address-lost-by-save-and-load", format!("{a} was added {}ms before the save by a store older than the expiry; it is not in what loads back ({} addresses)", t_save.elapsed().as_millis(), loaded.len()), w.clone());
+                        }
+                    }
+                    cx.nontrivial(&("long-running", cx.index, prior, with_cleanup));
+                } else {
+                    cx.count("long-running-store-saves-too-slow-to-judge");
+                }
+            }
+        },
+    }
+    let _ = std::fs::remove_dir_all(&dir);
+}
+
 /// CacheData-level: clean-up (expiry, reliability, limits) and merge, with arbitrary timestamps.
 fn cache_data_case(cx: &mut Cx, dir: &Path) {
     let path = dir.join("seed.json");
@@ -717,6 +784,8 @@ impl Check for C18 {
     fn run_case(&self, cx: &mut Cx) {
         if cx.index % 25 == 24 {
             stress_case(cx);
+        } else if cx.index % 50 == 7 {
+            long_running_store_case(cx);
         } else {
             history_case(cx);
         }
